@@ -501,6 +501,133 @@ def tlscfg_oracle(line, res):
     return None
 
 
+
+# ---------------- kind upcfg: the router's mapping  upstream config entry -> upstream  (initUpstream + NewUpstream)
+# every scheme text NewUpstream accepts (url.Parse lower-cases the scheme: letter case is a free dimension)
+UPC_BASE = [  # text, fake server protocol, tls based?, http?
+    ("udp", "udp", False, False),
+    ("tcp", "tcp", False, False),
+    ("tcp+pipeline", "tcp", False, False),
+    ("http", "http", False, True),
+    ("tls", "tls", True, False),
+    ("tls+pipeline", "tls", True, False),
+    ("https", "https", True, True),
+    ("h3", "h3", True, True),
+    ("quic", "quic", True, False),
+    ("doq", "quic", True, False),
+]
+UPC_NAME = "upc17.test"     # a name no resolver knows: reachable through dial_addr only
+
+
+def upc_recase(rng, text):
+    """a letter-case variant of a scheme text that differs from the lower-case one"""
+    while True:
+        t = "".join(c.upper() if rng.random() < 0.5 else c for c in text)
+        if t != text:
+            return t
+
+
+def upc_spellings(rng, tier):
+    out = []
+    for (text, srv, tls, http) in UPC_BASE:
+        out.append((text, srv, tls, http))
+        out.append((text.upper(), srv, tls, http))
+        for _ in range(budget(tier, 1, 3)):
+            out.append((upc_recase(rng, text), srv, tls, http))
+    seen = set()
+    res = []
+    for x in out:
+        if x[0] not in seen:
+            seen.add(x[0])
+            res.append(x)
+    return res
+
+
+def upc_line(cid, st, srv, tls, http, mode, ca, ck, ins, peer, srvreq, v6=False, urlport=True):
+    ip, listen = ("::1", "v6") if v6 else ("127.0.0.1", "v4")
+    if mode == "da":
+        name = UPC_NAME
+        auth = name + ((":" + PORT) if urlport else "")
+        da = join(ip, PORT)
+    else:
+        name = ip
+        auth = join(ip, PORT)
+        da = ""
+    url = (st + "://" if st is not None else "") + auth + ("/dns-query" if http else "")
+    return ("%s url=%s da=%s srv=%s listen=%s san=%s ca=%d ck=%d ins=%d peer=%s srvreq=%d st=%s tls=%d mode=%s"
+            % (cid, hs(url), hs(da), srv, listen, name if tls else "-", ca, ck, ins, peer if tls else "-", srvreq,
+               st if st is not None else "-", 1 if tls else 0, mode))
+
+
+def upcfg_gen(rng, tier):
+    out = []
+    n = [0]
+
+    def add(*a, **kw):
+        out.append(upc_line("u%d" % n[0], *a, **kw))
+        n[0] += 1
+
+    # scheme omitted (udp)
+    for mode in ("da", "url"):
+        add(None, "udp", False, False, mode, rng.randrange(2), rng.randrange(2), rng.randrange(2), "-", 0,
+            v6=rng.random() < 0.3)
+    for (st, srv, tls, http) in upc_spellings(rng, tier):
+        if not tls:
+            # plain transports: the TLS options of the entry change nothing
+            for mode in ("da", "url"):
+                for _ in range(budget(tier, 1, 3)):
+                    add(st, srv, tls, http, mode, rng.randrange(2), rng.randrange(2), rng.randrange(2), "-", 0,
+                        v6=rng.random() < 0.3, urlport=rng.random() < 0.5)
+            continue
+        for rep_ in range(budget(tier, 1, 4)):
+            for ca in (0, 1):
+                for ins in (0, 1):
+                    for peer in CERTS:
+                        ck, srvreq = rng.choice(((0, 0), (0, 0), (1, 0), (1, 1), (0, 1)))
+                        add(st, srv, tls, http, rng.choice(("da", "url")), ca, ck, ins, peer, srvreq,
+                            v6=rng.random() < 0.25, urlport=rng.random() < 0.5)
+            # the client certificate of the entry is presented, on both ways of reaching the server
+            for mode in ("da", "url"):
+                add(st, srv, tls, http, mode, 1, 1, 0, "valid", 1, v6=rng.random() < 0.25)
+            add(st, srv, tls, http, rng.choice(("da", "url")), 0, 1, 0, "sysroot", 1)
+    return out
+
+
+def upcfg_compare(ir, mr):
+    return endpoint_canon(ir) == endpoint_canon(mr)
+
+
+def upcfg_oracle(line, res):
+    f = gens.fields(line)
+    r = gens.fields(res)
+    what = "upstream %s (dial_addr %s)" % (f["st"] + "://" if f["st"] != "-" else "without scheme",
+                                          "set" if f["mode"] == "da" else "not set")
+    if r.get("start") != "ok":
+        return "%s: a valid config entry was refused" % what
+    if r.get("dial", "-") == "-":
+        return "%s never reached the configured target (%s)" % (
+            what, "the dial_addr of the entry" if f["mode"] == "da" else "host and port of addr")
+    if f["tls"] != "1":
+        if r.get("x") != "ok":
+            return "%s: no answer from the server at the configured target" % what
+        return None
+    pool = "the configured ca" if f["ca"] == "1" else "the system roots (no ca configured)"
+    cert_ok = f["ins"] == "1" or (f["ca"] == "1" and f["peer"] == "valid") or (f["ca"] == "0" and f["peer"] == "sysroot")
+    if r.get("x") == "ok" and not cert_ok:
+        return ("%s exchanged with a server whose certificate is %s; it must verify against %s "
+                "(insecure_skip_verify=0)" % (what, f["peer"], pool))
+    if r.get("x") == "fail" and cert_ok and (f["srvreq"] == "0" or f["ck"] == "1"):
+        return ("%s refused a server whose certificate is %s although the entry says ca=%s insecure_skip_verify=%s "
+                "cert/key=%s (server demands a client certificate: %s): the TLS options of the entry are not applied"
+                % (what, f["peer"], f["ca"], f["ins"], f["ck"], f["srvreq"]))
+    return None
+
+
+def upcfg_classify(line, res):
+    f = gens.fields(line)
+    return "%s/%s/%s" % (f["st"].lower(), f["mode"], f["peer"])
+
+
 PROPS["C17"] = dict(
     kinds=[
         dict(name="addr", gen=addr_gen, oracle=addr_oracle, classify=addr_classify,
@@ -514,6 +641,8 @@ PROPS["C17"] = dict(
         dict(name="tlscfg", gen=tlscfg_gen, oracle=tlscfg_oracle,
              classify=lambda l, r: "ca%s/vc%s" % (gens.fields(l)["ca"], gens.fields(l)["vc"]),
              nontrivial=lambda l, r: True, timeout=300),
+        dict(name="upcfg", gen=upcfg_gen, oracle=upcfg_oracle, classify=upcfg_classify, compare=upcfg_compare,
+             nontrivial=lambda l, r: True, timeout=900),
     ],
     rule="addr: every helper of internal/upstream/utils.go on grammar strings (IPv4 / domain / IPv6 of 20 catalogue "
          "shapes + random shapes, with and without port, x default port, x dial_addr forms incl. '@name'), the "
@@ -529,7 +658,13 @@ PROPS["C17"] = dict(
          "kind is open (TC=1 udp replies, one query per connection), the SET of (network, address) of all sockets "
          "(Control callback / arrival at the fake servers) against ep_sockets, a stray server at the URL host must "
          "stay untouched; tlscfg: real makeTlsConfig field by field for all 32 option combinations (pools compared "
-         "as sets); distinct = distinct case line, all non-trivial",
+         "as sets); upcfg: the upstream the REAL router.initUpstream builds from one config entry (hook "
+         "VerifC17InitUpstream) for every scheme text NewUpstream accepts in lower, upper and random mixed letter "
+         "case (udp tcp tcp+pipeline http | tls tls+pipeline https h3 quic doq, scheme omitted) x ca x "
+         "insecure_skip_verify x 7 server certificate kinds x client cert/server demand x {dial_addr set with an "
+         "unresolvable URL host, dial_addr unset with the server's loopback literal as URL host; v4/v6}, one real "
+         "exchange against a fake server of the scheme's protocol, accept/refuse and arrival at the configured "
+         "target against upc_case; distinct = distinct case line, all non-trivial",
     assumptions=["the process's system trust store is the harness' own (SSL_CERT_FILE / SSL_CERT_DIR set by build/implrun "
                  "before crypto/x509 first loads it; verified at start-up, a failure is a harness error, not an alarm)",
                  "every address of 127.0.0.0/8 is local (127.0.0.2, .3, .17, .18 are used as distinct peers)",
@@ -543,6 +678,8 @@ PROPS["C17"] = dict(
              "C17: crypto/tls handshake semantics of ClientAuth / InsecureSkipVerify / RootCAs (decision rule modelled, "
              "exercised by the tls kind)"],
     level_note="proof: dial target / network / SNI / Host for every address of a boolean grammar (all strings, by "
-               "induction) x all accepted schemes; verification decision rule with x509 as oracle. Partial: x509 and the "
-               "TLS handshake themselves are trusted and only exercised; url.Parse modelled only for the grammar.",
+               "induction) x all accepted schemes in any letter case; verification decision rule with x509 as oracle; "
+               "the router's config-entry -> upstream mapping (dial_addr unchanged, exactly makeTlsConfig(entry.tls) on "
+               "every TLS based scheme spelling). Partial: x509 and the TLS handshake themselves are trusted and only "
+               "exercised; url.Parse modelled only for the grammar.",
 )
